@@ -250,6 +250,8 @@ def gen_cases(rng, n_inst, per_attr=3, classes=None, stats=None):
                 sub = [c for c in cand if c[1].startswith("sub")]
                 oth = [c for c in cand if not c[1].startswith(("local", "sub"))]
                 rng.shuffle(loc)
+                rng.shuffle(sub)
+                sub.sort(key=lambda c: "[axis]" not in c[1])
                 for y, how in loc[:per_attr] + oth[:2] + sub[:1]:
                     if K.try_build(y)[0] is None:
                         stats["invalid_change"] = stats.get("invalid_change", 0) + 1
